@@ -869,6 +869,18 @@ def run(chk, replay=None):
             decide(inp2, r2[0], r2[1])
             chk.notes.append("widened search run: %s" % {k: [len(x) for x in v] for k, v in r2[1].items()})
 
+    # the same application connecting a second time must negotiate exactly what it negotiated the first time: the
+    # application's description outlives its runs (seeded/C05i1: the scaled log limit was written back into it)
+    again = [(i, o) for i, o in enumerate(obs["nr"]["nego"]) if o.get("again_run")]
+    again_bad = [(i, o) for i, o in again if not o.get("again_same")]
+    chk.cov.setdefault("stages", {})["reconnect"] = {"negotiations_repeated": len(again), "differing": len(again_bad)}
+    for i, o in again_bad[:3]:
+        c = dict(inp["nego"][i])
+        c["reply_text"] = render_reply(c, i)
+        chk.fail("reconnect_%d.json" % i, {"what": "the second connect of the same application does not negotiate what the first did: "
+                                                   + o.get("again_note", ""), "nego": [c], "observed": o},
+                 sig="c05-reconnect-differs")
+
     coverage(chk, inp, obs)
     chk.cov["rule"] = (
         "negotiation: collector limit x agent limit x report period on {absent, 0, 1, max-1, max, max+1, -1, 2^31, 2^63-1, "
